@@ -8,10 +8,11 @@ static struct { uint8_t mode; uint16_t period, rem; int16_t apptmr; } M;
 static uint8_t NID; static uint32_t TPM;   /* ticks per ms */
 
 enum { E_TICK, E_SDO_HB0, E_SDO_HB1, E_SDO_HB2, E_SDO_HB3, E_API_HB0, E_API_HB2, E_API_HB3, E_NMT_START, E_NMT_STOP, E_NMT_PREOP, E_NMT_RESETCOM, E_NMT_RESETNODE,
-       E_EVT0, E_EVT2, E_INH0, E_INH2, E_TYPE254, E_SYNCID_ON, E_SYNCID_OFF, E_CYCLE0, E_CYCLE2, E_TRIG, E_WRITE_ASYNC, E_APP_CREATE, E_APP_DELETE, E_HBCONS_FRAME, E_HBC_WRITE, E_PDO_OFF, E_PDO_ON, E_NODE_START, E_N };
+       E_EVT0, E_EVT2, E_INH0, E_INH2, E_TYPE254, E_SYNCID_ON, E_SYNCID_OFF, E_CYCLE0, E_CYCLE2, E_TRIG, E_WRITE_ASYNC, E_APP_CREATE, E_APP_DELETE, E_HBCONS_FRAME, E_HBC_WRITE, E_PDO_OFF, E_PDO_ON, E_SDO_HB_SHORT, E_API_HB_SHORT, E_NODE_START, E_N };
 static const char *const EN[] = { "tick", "SDO 1017h=0", "SDO 1017h=1", "SDO 1017h=2", "SDO 1017h=3", "API 1017h=0", "API 1017h=2", "API 1017h=3", "NMT start", "NMT stop", "NMT pre-op", "NMT reset com", "NMT reset node",
        "SDO 1800h:5=0", "SDO 1800h:5=2", "SDO 1800h:3=0", "SDO 1800h:3=20", "SDO 1800h:2=254", "SDO 1005h producer on", "SDO 1005h producer off", "SDO 1006h=0", "SDO 1006h=2000us", "COTPdoTrigPdo(0)", "write async object",
-       "app COTmrCreate", "app COTmrDelete", "heartbeat of monitored node", "SDO 1016h:1 rewrite", "SDO 1800h:1 invalid", "SDO 1800h:1 valid", "CONodeStart" };
+       "app COTmrCreate", "app COTmrDelete", "heartbeat of monitored node", "SDO 1016h:1 rewrite", "SDO 1800h:1 invalid", "SDO 1800h:1 valid",
+       "SDO 1017h: one byte by segmented download (refused)", "API CODictWrBuffer(1017h, 1 byte) (refused)", "CONodeStart" };
 
 static void app_cb(void *p) { (void)p; w_cb(CB_USER, 1, 0, 0); }
 static const char *cfg_name(int c) { static const char *const n[] = { "1kHz hb=2ms", "1kHz hb=0", "100Hz hb=20ms", "1kHz hb=2ms node 10 OPERATIONAL", "1kHz hb=0, TPDO event time 1 ms, OPERATIONAL", "1kHz hb=2ms, timer pool of 3 (exactly sized)", "1kHz hb=0, node initialised but not started", "1kHz hb=2ms, node initialised but not started" }; return n[c]; }
@@ -59,7 +60,7 @@ static int step(int e)
     static const uint8_t CODE[] = { 0, 0, 127, 5, 4 };
     int expect = 0; uint32_t r;
     /* before boot-up there is no SDO and no NMT service; frames a due producer timer sends or does not send in INIT are not judged */
-    if (M.mode == M_INIT && ((e >= E_SDO_HB0 && e <= E_SDO_HB3) || (e >= E_NMT_START && e <= E_CYCLE2) || e == E_HBC_WRITE || e == E_PDO_OFF || e == E_PDO_ON || e == E_HBCONS_FRAME)) return MC_SKIP;
+    if (M.mode == M_INIT && ((e >= E_SDO_HB0 && e <= E_SDO_HB3) || e == E_SDO_HB_SHORT || (e >= E_NMT_START && e <= E_CYCLE2) || e == E_HBC_WRITE || e == E_PDO_OFF || e == E_PDO_ON || e == E_HBCONS_FRAME)) return MC_SKIP;
     switch (e) {
     case E_TICK: if (M.period) { M.rem--; if (M.rem == 0) { expect = 1; M.rem = M.period; } } w_tick(&Node, 1); break;
     case E_SDO_HB0: case E_SDO_HB1: case E_SDO_HB2: case E_SDO_HB3: {
@@ -71,6 +72,19 @@ static int step(int e)
         uint16_t v = (uint16_t)(e == E_API_HB0 ? 0 : e == E_API_HB2 ? 2 : 3);
         free_before = tmr_free();
         CO_ERR err = CODictWrWord(&Node.Dict, CO_DEV(0x1017, 0), (uint16_t)(v * TPM)); hb_write_result(err == CO_ERR_NONE ? 0 : (uint32_t)err, v); break; }
+    case E_SDO_HB_SHORT: {   /* a download that carries one byte for the 16-bit object (no size announced, so that the length is known with the last segment only):
+                               * it has to be refused and the producer goes on as if nothing had been sent */
+        static const uint8_t one[1] = { 1 };
+        if (M.mode == M_STOP) return MC_SKIP;
+        r = nc_sdo_write_seg(0x1017, 0, one, 1, 0);
+        if (r == 0) mc_fail("hb-short-write-accepted", "a one-byte download to 1017h is confirmed");
+        else if (r == 0xFFFFFFFFu) mc_fail("hb-write-refused", "a one-byte segmented download to 1017h gets no abort");
+        break; }
+    case E_API_HB_SHORT: {
+        uint8_t one[2] = { 1, 0 };
+        CO_ERR err = CODictWrBuffer(&Node.Dict, CO_DEV(0x1017, 0), one, 1);
+        if (err == CO_ERR_NONE) mc_fail("hb-short-write-accepted", "CODictWrBuffer of one byte to 1017h succeeds");
+        break; }
     case E_NMT_START: M.mode = M_OP; nc_nmt(1, NID); break;
     case E_NMT_STOP:  M.mode = M_STOP; nc_nmt(2, 0); break;
     case E_NMT_PREOP: M.mode = M_PREOP; nc_nmt(128, NID); break;
